@@ -448,8 +448,13 @@ func (g *gen) genLib(path string, deps []string, depVars []*Var) (vars []*Var) {
 	for _, d := range deps {
 		imps = append(imps, `"`+modToken+"/"+d+`"`)
 	}
-	if len(depVars) > 0 {
-		g.addNode(&Node{Fixed: true, Pre: tx("var _ = ", depVars[0].Name)})
+	for _, d := range deps {
+		for _, v := range depVars {
+			if strings.HasPrefix(v.Name, pkgIdent(d)+".") {
+				g.addNode(&Node{Fixed: true, Pre: tx("var _ = ", v.Name)})
+				break
+			}
+		}
 	}
 	g.finishPkg(imps)
 	// the names as other packages see them
@@ -479,16 +484,18 @@ func genProgram(seed int64, size int, opts Opts) *Prog {
 		v1 := g.genLib("lib/a", nil, nil)
 		libVars = append(libVars, v1...)
 		imports = append(imports, `"`+modToken+`/lib/a"`)
+		deps := []string{"lib/a"}
 		if g.chance(60) {
 			// b imports a
 			v2 := g.genLib("b", []string{"lib/a"}, v1)
 			libVars = append(libVars, v2...)
 			imports = append(imports, `"`+modToken+`/b"`)
+			deps = append(deps, "b")
 		}
 		if g.chance(40) {
 			// a package imported for its initialisation only
 			nf, nc, nn := len(g.fns), len(g.consts), len(g.named)
-			g.genLib("zinit", []string{"lib/a"}, v1)
+			g.genLib("zinit", deps, libVars)
 			g.fns, g.consts, g.named = g.fns[:nf], g.consts[:nc], g.named[:nn]
 			imports = append(imports, `_ "`+modToken+`/zinit"`)
 		}
